@@ -61,6 +61,11 @@ class NonlinearConstraintsConfig(ImmutableBaseModel):
 
     @model_validator(mode="after")
     def _broadcast_and_check(self, info: ValidationInfo) -> Self:
+        if getattr(self, "_is_immutable", False):
+            # This validator also runs for an object that was created and
+            # validated before, and is now used as a field value. That object
+            # may be in use elsewhere, it is left alone:
+            self = self.model_copy()  # noqa: PLW0642
         lower_bounds, upper_bounds = broadcast_arrays(
             self.lower_bounds, self.upper_bounds
         )
